@@ -932,9 +932,10 @@ pub fn check_planar(case: &PlanarCase, obs: &mut Obs) {
 const PART_PORE: PartCfg = PartCfg { name: "pore", genome_len: 140, cases_quick: 128, cases_thorough: 12800, panic: PanicPolicy::Count };
 const PART_HENRY: PartCfg = PartCfg { name: "henry", genome_len: 140, cases_quick: 96, cases_thorough: 9600, panic: PanicPolicy::Count };
 const PART_PLANAR: PartCfg = PartCfg { name: "planar", genome_len: 120, cases_quick: 64, cases_thorough: 6400, panic: PanicPolicy::Count };
+const PART_UNIFORM: PartCfg = PartCfg { name: "uniform-response", genome_len: 110, cases_quick: 480, cases_thorough: 80_000, panic: PanicPolicy::Count };
 
 pub fn run(ctx: &Ctx) {
-    ctx.set_rule("pore: proptest genomes -> (PeTS / PC-SAFT / gc-PC-SAFT (acyclic, <= 6 segments) / SAFT-VRQ Mie functional, 1-2 components) x (slit / cylinder / sphere; LJ93 / Steele / HardWall / SimpleLJ93 (slit); size 8-60 A; 256-1024 points) x T/Tc in [0.6,1.5] x bulk density = [0.05,0.6] x saturated vapour density (0.3 critical density above Tc) x relative step {5e-4,1e-3,2e-3}; the reference profile and 4 neighbours per direction (mu_k for every component, p, T) are solved with Newton to 1e-13 from the reference density. Non-trivial: at least 3 conclusive comparisons and an excess adsorption above 10 % of N. henry: (spherical or heterosegmented functional, 1-2 components) x pore x T/Tc in [0.6,1.5] at a bulk density chosen so that the Boltzmann-enhanced density stays below 1e-9..1e-7 x 1e-3/A^3. planar: pure functionals; two boxes (60-300 A, 256-4096 points) at T/Tc in [0.5,0.95]; gamma(T) on 6 temperatures + 0.97 Tc; pDGT (198 points) vs DFT. Distinct by hash of the canonical case JSON.");
+    ctx.set_rule("pore: proptest genomes -> (PeTS / PC-SAFT / gc-PC-SAFT (acyclic, <= 6 segments) / SAFT-VRQ Mie functional, 1-2 components) x (slit / cylinder / sphere; LJ93 / Steele / HardWall / SimpleLJ93 (slit); size 8-60 A; 256-1024 points) x T/Tc in [0.6,1.5] x bulk density = [0.05,0.6] x saturated vapour density (0.3 critical density above Tc) x relative step {5e-4,1e-3,2e-3}; the reference profile and 4 neighbours per direction (mu_k for every component, p, T) are solved with Newton to 1e-13 from the reference density. Non-trivial: at least 3 conclusive comparisons and an excess adsorption above 10 % of N. henry: (spherical or heterosegmented functional, 1-2 components) x pore x T/Tc in [0.6,1.5] at a bulk density chosen so that the Boltzmann-enhanced density stays below 1e-9..1e-7 x 1e-3/A^3. planar: pure functionals; two boxes (60-300 A, 256-4096 points) at T/Tc in [0.5,0.95]; gamma(T) on 6 temperatures + 0.97 Tc; pDGT (198 points) vs DFT. uniform-response: C16's generator (8 grid kinds incl. oblique periodic 2-D / 3-D cells, polar, cylindrical, spherical; 5 functional families, 1-3 components; bulk states of the whole (tau, eta) box incl. mechanically unstable ones; Lanczos None/1/2) with at most 1024 / 48 / 16 points per axis; non-trivial: the excess part of dmu/drho exceeds 1e-3 of the ideal-gas value. Distinct by hash of the canonical case JSON.");
     ctx.assume("finite differences: central differences with steps h and h/2, Richardson value, step-size error estimate |d(h/2)-d(h)|/3 must be below 0.2 x rtol x scale (else inconclusive); violation iff |analytic - numeric| > 2e-4 x scale + 10 x error estimate (measured <= 3.7e-6 on non-dilute profiles); neighbours are accepted only if the second difference of N is below 20 % of the first (no capillary condensation between them)");
     ctx.assume("chemical potential differences are taken from the bulk states: mu_i = T ln rho_i + mu_res,i (C01/C02 validate mu_res)");
     ctx.assume("Henry limit: rtol 1e-4 (DESIGN); ideal-gas enthalpy of adsorption: Ridders derivative of ln(H T), 1e-5 relative + 50 x Ridders error");
@@ -942,13 +943,17 @@ pub fn run(ctx: &Ctx) {
     ctx.run_sampled(&PART_PORE, &gen_pore_case, &check_pore);
     ctx.run_sampled(&PART_HENRY, &gen_henry_case, &check_henry);
     ctx.run_sampled(&PART_PLANAR, &gen_planar_case, &check_planar);
+    ctx.assume("uniform-response: for a uniform profile without external potential (an exact solution, C16) the reported derivatives have closed forms in bulk properties of the same functional: dN_i/dmu_k = V [(V_b dmu/dN)^-1]_ik, dN_i/dp = V x_i/(dp/drho), dN_i/dT = -V x_i (dp/dT)/(dp/drho), henry_coefficients R T = V and ideal_gas_enthalpy_of_adsorption = R T (m = 1 segments), V = integral(1) with the grid's weights; tolerance 1e-7 x conditioning of dmu/drho (Frobenius) or T/|dp/drho|, cases beyond a conditioning of 1e4 / 1e3 skipped; an Err of the routine is inconclusive");
+    ctx.run_sampled(&PART_UNIFORM, &super::c16::decode_response, &super::c16::check_response);
     ctx.extra("measured_worst", worst_json());
+    ctx.extra("measured_worst_uniform_response", super::c16::response_worst());
 }
 
 pub fn replay(ctx: &Ctx, part: &str, case: &Value) -> bool {
     match part {
         "pore" => ctx.replay_case::<PoreCase>(case, &check_pore),
         "henry" => ctx.replay_case::<HenryCase>(case, &check_henry),
+        "uniform-response" => ctx.replay_case::<super::c16::Case>(case, &super::c16::check_response),
         _ => ctx.replay_case::<PlanarCase>(case, &check_planar),
     }
 }
